@@ -302,7 +302,7 @@ func Plan(prop string, md mode) func(tier string) *harness.Plan {
 		if md == ModeResults {
 			rule += "Oracle on every transition: the operation's result equals its result on a freshly built value of the same program, and applying it again immediately gives the same result."
 		} else {
-			rule += "Monitors on every state: every lazy-DFA cache uses at most its capacity plus one state; every backtracker visited table is within its cap; the deep size of everything reachable stops growing: for every explored history σ of length <= 2, eight repetitions of σ leave the value no bigger than four repetitions; plus the allocation sweep: testing.AllocsPerRun == 0 after two warm-up calls for Match, MatchString, Engine.IsMatch, Engine.FindIndices, Count, ranging over AllIndex, AppendAllIndex into a sufficient buffer, on every seed × haystack."
+			rule += "Monitors on every state: every lazy-DFA cache uses at most its capacity plus one state; every backtracker visited table is within its cap; the deep size of everything reachable stops growing: for every explored history σ of length <= 2, the size does not keep growing over 4, 8 and 16 repetitions of σ; plus the allocation sweep: testing.AllocsPerRun == 0 after two warm-up calls for Match, MatchString, Engine.IsMatch, Engine.FindIndices, Count, ranging over AllIndex, AppendAllIndex into a sufficient buffer, on every seed × haystack."
 		}
 		return &harness.Plan{
 			Units: len(progs) + nAlloc, Chunk: 1, Run: run,
@@ -432,25 +432,31 @@ func explore(w *harness.W, p program, md mode, depth, capTrans int) {
 				if len(h2) > maxDepth {
 					maxDepth = len(h2)
 				}
-				// steady state: the deep size must stop growing — after 4 repetitions of the history, 4 more repetitions
-				// must not make the value any bigger (slow warm-up over the first repetitions is tolerated)
+				// steady state: the deep size must stop growing. A one-time late allocation (e.g. the NFA fallback object
+				// created when a shrunken cache gives up after its fifth clear) is warm-up; growth that continues over
+				// two consecutive doublings of the repetition count (4 -> 8 -> 16) is a leak.
 				if md == ModeMemory && len(h2) <= 2 {
 					reA := build(p, hs)
-					for k := 0; k < 4; k++ {
-						for _, x := range h2 {
-							apply(reA, x, hs)
+					rep := func(k int) int64 {
+						for i := 0; i < k; i++ {
+							for _, x := range h2 {
+								apply(reA, x, hs)
+							}
 						}
+						r, _ := observe(reA)
+						return r.Bytes
 					}
-					a, _ := observe(reA)
-					for k := 0; k < 4; k++ {
-						for _, x := range h2 {
-							apply(reA, x, hs)
-						}
-					}
-					b, _ := observe(reA)
+					a := rep(4)
+					b := rep(4)
 					trans += 8 * len(h2)
-					if b.Bytes > a.Bytes {
-						fail("heap-grows-in-steady-state", h2[:len(h2)-1], s, fmt.Sprintf("%d bytes after 4 repetitions of the history", a.Bytes), fmt.Sprintf("%d bytes after 8 repetitions", b.Bytes))
+					if b > a {
+						c := rep(8)
+						trans += 8 * len(h2)
+						if c > b {
+							w.Fail(&harness.Case{Op: "heap-grows-in-steady-state", Mode: p.variant, Pattern: p.String(), Hay: strconv.Quote(s.String(hs)), Args: "after [" + histNames(h2[:len(h2)-1], hs) + "]",
+								Want: "deep size stops growing after warm-up", Got: "deep size still grows after 4, 8 and 16 repetitions of the history", Cluster: "heap-grows-in-steady-state",
+								Extra: map[string]string{"bytes_after_4": fmt.Sprint(a), "bytes_after_8": fmt.Sprint(b), "bytes_after_16": fmt.Sprint(c)}})
+						}
 					}
 				}
 			}
@@ -532,4 +538,12 @@ func allocSweep(w *harness.W, thorough bool) {
 	w.C["distinct_nontrivial"] += n
 	w.C["traces_validated_against_impl"] += n
 	w.Sample(map[string]any{"kind": "allocation sweep", "patterns": len(pats), "measurements": n})
+}
+
+func histNames(h []step, hs [][]byte) string {
+	var names []string
+	for _, x := range h {
+		names = append(names, x.String(hs))
+	}
+	return strings.Join(names, ", ")
 }
